@@ -51,6 +51,11 @@ func plan(tier string, seed int64) []driver.Case {
 					continue
 				}
 				cases = append(cases, driver.Case{ID: fmt.Sprintf("op/%s/%s/%s", e.Name, sc, drive), P: map[string]string{"kind": "op", "entry": e.Name, "script": sc, "drive": drive}})
+				// the same with the operator's first user callback panicking: the Error that reports the panic
+				// travels with a context like any other notification
+				if drive == "sync" && strings.Contains(sc, " ") {
+					cases = append(cases, driver.Case{ID: fmt.Sprintf("op/%s/%s/%s/callback-panics", e.Name, sc, drive), P: map[string]string{"kind": "op", "entry": e.Name, "script": sc, "drive": drive, "panic": "1"}})
+				}
 				// the same with sources whose notifications carry a context unrelated to the subscription's
 				cases = append(cases, driver.Case{ID: fmt.Sprintf("op/%s/%s/%s-foreign", e.Name, sc, drive), P: map[string]string{"kind": "op", "entry": e.Name, "script": sc, "drive": drive, "foreign": "1"}})
 			}
@@ -214,6 +219,16 @@ func runOp(c driver.Case) driver.Result {
 	sc := src.Parse(c.Get("script"))
 	res := driver.Result{Verdict: driver.Held}
 	b := &catalog.B{}
+	if c.Get("panic") == "1" {
+		fired := false
+		b.Hit = func(pos string) error {
+			if !fired {
+				fired = true
+				panic("callback " + pos + " panics")
+			}
+			return nil
+		}
+	}
 	var srcs []*src.Source
 	for i := 0; i < e.NSrc; i++ {
 		var s *src.Source
